@@ -3,7 +3,7 @@
 # the first check named in caught_by from a private copy of /verif; three at a time.  One line per change in /tmp/seedregress.log.
 cd /verif || exit 2
 names="$@"; [ -z "$names" ] && names=$(ls seeded)
-log=/tmp/seedregress.log; : > $log
+export log=/tmp/seedregress.log; : > $log
 one() {
   n=$1
   wt=/tmp/wr_$n; vf=/tmp/vr_$n
@@ -20,6 +20,6 @@ one() {
   rm -rf $vf; git -C /repo worktree remove --force $wt
 }
 export -f one
-printf '%s\n' $names | xargs -P 3 -I{} bash -c 'one {}'
+printf '%s\n' $names | xargs -P 4 -I{} bash -c 'one {}'
 git -C /repo worktree prune
 sort $log
